@@ -73,8 +73,8 @@ T = {
         "link argument (evaluate_parameter) is logged and surfaces as an EvaluationException that names the query being evaluated and the "
         "position of the failing argument, and a link that failed never yields a value; parse_argv turns a surplus or unconvertible argument into an ArgumentParserException that names "
         "the query being evaluated; State.get never hands out the data of an error state. Which message / position / query text the error record carries is explored only (failing "
-        "action at every position and in every way); four deviations there are recorded findings.",
-        "KNOWN-FINDING lines name four genuine, unrepaired deviations in the error record (not in the containment itself). " + BOUNDED),
+        "action at every position and in every way); two deviations there (which query text a position of a nested or non-canonically spelled failure is measured in) are recorded findings.",
+        "KNOWN-FINDING lines name two genuine, unrepaired deviations in the error record (not in the containment itself). " + BOUNDED),
 "C07": ("proof",
         "contract-based deductive verification of the real MemoryStore code, the key helpers and Store.finalize_metadata against an abstract "
         "store view (own VC generator, z3/cvc5); bounded reference-model comparison of 14 store compositions as labelled stand-in",
@@ -195,7 +195,7 @@ T = {
         "error flag (error iff is_error, otherwise ready), every failure is flagged, the final metadata goes to the given cache and equals the "
         "returned one; evaluate files the result under the canonical query text and flags a failed prefix. That type identifier, message, "
         "commands and the three kept copies (returned, cached, stored) agree in every field is explored.",
-        "Three recorded findings (KNOWN-FINDING) are genuine, unrepaired deviations. " + BOUNDED),
+        "Two recorded findings (KNOWN-FINDING: StoreCache media type, file-name-only query) are genuine, unrepaired deviations. " + BOUNDED),
 "C19": ("proof",
         "contract-based deductive verification (own VC generator over the real AST, z3/cvc5); bounded run-time contract check as labelled stand-in",
         "Proved for all directories and all paths: ResourceQuerySegment._query_to_absolute / to_absolute and Query.to_absolute compute exactly "
